@@ -4097,6 +4097,17 @@ GRsetcompress(int32 riid, comp_coder_t comp_type, comp_info *cinfo)
     }
 #endif
 
+    /* an image of a file that is open for reading only cannot be stored again:
+       refuse before anything is marked (the marks would make later reads fail) */
+    {
+        intn  acc_mode = 0, attached = 0;
+        char *fname    = NULL;
+
+        if (Hfidinquire(ri_ptr->gr_ptr->hdf_file_id, &fname, &acc_mode, &attached) != FAIL &&
+            !(acc_mode & DFACC_WRITE))
+            HGOTO_ERROR(DFE_DENIED, FAIL);
+    }
+
     /* Mark the image as being compressed and cache args */
     if (comp_type == COMP_CODE_JPEG) {
         if (ri_ptr->img_dim.ncomps == 1)
@@ -4447,6 +4458,15 @@ GRsetattr(int32 id, const char *name, int32 attr_nt, int32 count, const void *da
     }    /* end if */
     else /* shouldn't get here, but what the heck... */
         HGOTO_ERROR(DFE_ARGS, FAIL);
+
+    /* an attribute of a file that is open for reading only would never be stored */
+    {
+        intn acc_mode = 0, attached = 0;
+        char *fname = NULL;
+
+        if (Hfidinquire(hdf_file_id, &fname, &acc_mode, &attached) != FAIL && !(acc_mode & DFACC_WRITE))
+            HGOTO_ERROR(DFE_DENIED, FAIL);
+    }
 
     /* Search for an attribute with the same name */
     if ((t = (void **)tbbtfirst(search_tree->root)) != NULL) {
